@@ -1,8 +1,8 @@
 #!/bin/sh
-# harvest_seed.sh <PROP> <n> <name>: copy /tmp/wt_<PROP>/SEED/<n> to seeded/<PROP>-<name>, path deps -> /repo
+# harvest_seed.sh <PROP> <n> <name> [worktree-suffix]: copy /tmp/wt_<PROP>/SEED/<n> to seeded/<PROP>-<name>, path deps -> /repo
 set -e
-P=$1; N=$2; NAME=$3
-SRC=/tmp/wt_$P/SEED/$N
+P=$1; N=$2; NAME=$3; SUF=${4:-}
+SRC=/tmp/wt_$P$SUF/SEED/$N
 DST=/verif/seeded/$P-$NAME
 rm -rf "$DST"; mkdir -p "$DST"
 cp "$SRC/patch.diff" "$DST/patch.diff"
@@ -10,5 +10,5 @@ cp "$SRC/README.md" "$DST/README.md"
 cp -r "$SRC/demo" "$DST/demo"
 find "$DST/demo" -name target -type d -prune -exec rm -rf {} +
 rm -f "$DST/demo/Cargo.lock"
-grep -rl "/tmp/wt_$P" "$DST" | xargs -r sed -i "s#/tmp/wt_$P#/repo#g"
+grep -rl "/tmp/wt_$P$SUF" "$DST" | xargs -r sed -i "s#/tmp/wt_$P$SUF#/repo#g"
 echo "$DST"
